@@ -200,16 +200,25 @@ Definition from_tauri_config (f : fs) (p : string) : lres :=
   | _ => LErr
   end.
 
+(* config.rs from_tauri_config_unvalidated: the same reading without validate; an error
+   only when the file cannot be read or is not JSON *)
+Definition from_tauri_config_unvalidated (f : fs) (p : string) : lres :=
+  match fs_get f p with
+  | Some (NDoc (Some d)) => match load_doc d with None => LNone | Some c => LOk c end
+  | _ => LErr
+  end.
+
 (* bin:103-107 *)
 Definition cands : list string := ["tauri.conf.json"; "src-tauri/tauri.conf.json"; "../tauri.conf.json"].
 
-(* bin:112-129 the search loop: the first existing candidate decides unless loading it fails *)
+(* bin:112-129 the search loop: the first existing candidate decides unless it cannot be
+   read as JSON; its settings are not validated here but after the overrides *)
 Fixpoint search (f : fs) (ps : list string) : config :=
   match ps with
   | [] => dflt
   | p :: r =>
       if fs_exists f p then
-        match from_tauri_config f p with
+        match from_tauri_config_unvalidated f p with
         | LOk c => c
         | LNone => dflt
         | LErr => search f r
@@ -238,12 +247,12 @@ Definition apply_flags (fl : flags) (c : config) : config :=
 Record eff := {
   e_project : string; e_output : string; e_lib : string;
   e_verbose : bool;        (* config.is_verbose(): analyzer and cache messages *)
-  e_log_verbose : bool;    (* verbosity of the Logger (step lines): bin:89 built from the flag alone *)
+  e_log_verbose : bool;    (* verbosity of the Logger (step lines): built from config.is_verbose() after the overrides *)
   e_visualize : bool; e_force : bool }.
 
 Definition eff_of (fl : flags) (c : config) : eff :=
   {| e_project := project_path c; e_output := output_path c; e_lib := validation_library c;
-     e_verbose := or_else (verbose c) false; e_log_verbose := f_verbose fl;
+     e_verbose := or_else (verbose c) false; e_log_verbose := or_else (verbose c) false;
      e_visualize := or_else (visualize_deps c) false; e_force := or_else (force c) false |}.
 
 Inductive result :=
